@@ -4,10 +4,10 @@ CONSTANTS
   ClearOnGrow = TRUE
   ResetVarsOnFree = TRUE
   MaxCtx = 1
-  MaxBi = 11
+  MaxBi = 10
   MaxVars = 1
   GrowSteps = 1
-  Texts <- AllTexts
+  Texts <- FewTexts
   Outcomes <- OutcomesMC
   Obs <- ObsNone
 INVARIANTS IndexBelowCapacity BuiltinSentinel AfterFreeNoResidue FileStackRestored
